@@ -1,5 +1,6 @@
 """C04 — the parser is total and sound on arbitrary byte streams."""
 from .. import parsing
+from .. import envprobe
 from ..common import chunks, generic_replay, pool_map
 
 RULE = ('byte strings: every string up to length L over a 15-letter alphabet with one representative per byte class '
@@ -61,19 +62,26 @@ def run(ck):
         seqs.append([0x90, 1, 2] * n)
         seqs.append([0xf0, 0xf8, 0xf7, 0xf6] * n)
     ck.hist['streams_with_more_than_1024_messages'] = 12 if ck.tier == 'quick' else 24
+    # very long single messages and very many pending ones: no size is special
+    big = 1100000 if ck.tier == 'quick' else 3000000
+    seqs.append([0xf0] + [ck.rng.randint(0, 127) for _ in range(big)] + [0xf7, 0xf8])
+    seqs.append([0xf8, 0xf0] + [(i * 7) % 128 for i in range(200000)] + [0xfa] * 5 + [1, 2, 0xf7])
+    seqs.append([0xf8] * (70000 if ck.tier == 'quick' else 300000))
     res = [r for part in pool_map(_chunk, list(chunks(seqs, 4000))) for r in part]
-    reqs = []
+    reqs, rimpl = [], []
     for s, (line, fail) in zip(seqs, res):
         ck.note_case(bytes(s), nontrivial=any(b >= 0x80 for b in s))
         ck.count('len<=5' if len(s) <= 5 else ('len<=100' if len(s) <= 100 else 'long'))
         ck.count('msgs:%s' % min(line.count(';') + (1 if len(line) > 2 else 0), 5))
         if fail:
             ck.oracle_fail({'bytes': list(s)}, fail)
-        reqs.append('parseall ' + ' '.join(map(str, s)))
+        if len(s) <= 30000:
+            reqs.append('parseall ' + ' '.join(map(str, s)))
+            rimpl.append(line)
     for s in (seqs[777], seqs[20000], seqs[-1][:40]):
         ck.sample({'bytes': s})
     model = ck.driver.run(reqs)
-    ck.compare('parser', reqs, [r[0] for r in res], model)
+    ck.compare('parser', reqs, rimpl, model)     # inputs above 30000 bytes are judged by the oracle only (the model is not built for speed)
     # feed()/feed_byte() variants on a subsample
     sub = seqs[::7][:20000]
     for s in sub:
@@ -81,10 +89,13 @@ def run(ck):
         f = variants_fail(s)
         if f:
             ck.oracle_fail({'bytes': list(s), 'variants': True}, f)
+    envprobe.check(ck, ['parse', 'parser'])
     return ck.finish(RULE, assumptions=['inputs are integers 0..255 (other items raise TypeError/ValueError by contract)'])
 
 
 def oracle(case):
+    if 'environment' in case:
+        return envprobe.oracle(case)
     if case.get('variants'):
         return variants_fail(case['bytes'])
     return parsing.impl_parse_all(case['bytes'])[1]
